@@ -11,7 +11,7 @@ Open Scope list_scope.
 Fixpoint sleaves (s : schema) : list (path * vkind * bool) :=       (* path, kind, is-alias *)
   match s with
   | SLeaf k => [([], k, false)]
-  | SAlias _ k => [([], k, true)]
+  | SAlias _ k _ => [([], k, true)]
   | SObj _ _ _ _ props =>
       (fix go (ps : list (string * schema)) : list (path * vkind * bool) :=
          match ps with
@@ -29,7 +29,7 @@ Fixpoint alias_targets_abs (s : schema) : list path :=
          | [] => []
          | (n, sp) :: r =>
              match sp with
-             | SAlias tgt _ => tgt :: go r
+             | SAlias tgt _ _ => tgt :: go r
              | _ => map (fun p => n :: p) (alias_targets_abs sp) ++ go r
              end
          end) props
@@ -108,8 +108,24 @@ Definition notations_coarse (p : path) : list notation :=
 
 Definition fresh_state (s : schema) : tree := match fresh colors s with inl t => t | inr _ => Leaf None end.
 
+(* getattr along the path: an alias property reads its target *)
+Fixpoint sread (s : schema) (st : tree) (p : path) : option tree :=
+  match p with
+  | [] => Some st
+  | k :: r =>
+      match s, st with
+      | SObj _ _ _ _ props, Node sd =>
+          match slookup k props with
+          | Some (SAlias tgt _ _) => match r with [] => tget tgt st | _ => None end
+          | Some sp => match dget k sd with Some t => sread sp t r | None => None end
+          | None => None
+          end
+      | _, _ => None
+      end
+  end.
+
 Definition leaf_is (s : schema) (st : tree) (p : path) (v : option val) : bool :=
-  match tget p (as_dict s st) with Some (Leaf o) => oval_same o v | _ => false end.
+  match sread s st p with Some (Leaf o) => oval_same o v | _ => false end.
 
 Definition no_err (e : option err) : bool := match e with None => true | Some _ => false end.
 
@@ -137,12 +153,14 @@ Definition pristine : tree := fst defaults0.
 
 Definition in_literal (p : path) : bool := match tget p DEFAULTS with Some (Leaf _) => true | _ => false end.
 
-(* change one leaf of the settings (any notation), then reset(): the settings are the pristine ones *)
-Definition reset_holds (p : path) (v : val) (n : notation) : bool :=
+(* change one leaf of the settings (any notation), then reset() in the given form: the settings are pristine *)
+Definition reset_holds_m (m : rmode) (p : path) (v : val) (n : notation) : bool :=
   let '(st1, e1) := set_leaf defaults_schema pristine p (Some v) n in
-  let '(st2, e2) := reset colors defaults_schema st1 DEFAULTS in
+  let '(st2, e2) := reset colors m defaults_schema st1 DEFAULTS in
   no_err e1 && no_err e2 && leaf_is defaults_schema st1 p (Some v) &&
   tree_same (as_dict defaults_schema st2) (as_dict defaults_schema pristine).
+
+Definition reset_holds := reset_holds_m reset_mode.
 
 (* every leaf of the hard-coded DEFAULTS is what the fresh settings hold (colours canonicalised) *)
 Definition literal_holds (p : path) (k : vkind) : bool :=
@@ -158,7 +176,7 @@ Definition literal_holds (p : path) (k : vkind) : bool :=
 Definition fam_schema (f : string) : option schema := slookup f (sprops dstyle_schema).
 
 Definition has_leaf (s : schema) (p : path) : bool :=
-  match sget p s with Some (SLeaf _) | Some (SAlias _ _) => true | _ => false end.
+  match sget p s with Some (SLeaf _) | Some (SAlias _ _ _) => true | _ => false end.
 
 (* families of the class whose default style has this leaf, in get_families order *)
 Definition leaf_families (cls : string) (p : path) : list string :=
@@ -175,33 +193,46 @@ Definition show_kw (p : path) (v : val) (nested : bool) : dict :=
   if nested then [("style", nest p (Leaf (Some v)))]
   else [(String.append "style_" (join_with "_" p), Leaf (Some v))].
 
-Record sources := mkSrc { s_kw : bool; s_obj : bool; s_fam : bool; s_base : bool }.
+(* sources of a leaf value: show keyword, object, the object's own (most specific) family, its more generic
+   families, the base defaults *)
+Record sources := mkSrc { s_kw : bool; s_obj : bool; s_fam : bool; s_gen : bool; s_base : bool }.
 
-Definition all_sources : list sources :=
-  flat_map (fun a => flat_map (fun b => flat_map (fun c => map (fun d => mkSrc a b c d) [true; false])
-                                                 [true; false]) [true; false]) [true; false].
+Definition bools : list bool := [true; false].
+Definition sources_with (g : bool) : list sources :=
+  flat_map (fun a => flat_map (fun b => flat_map (fun c => map (fun d => mkSrc a b c g d) bools) bools) bools) bools.
+Definition all_sources : list sources := sources_with false.
+Definition gen_sources : list sources := sources_with true.
 
-(* the leaf of an object of class cls, with the four sources present or absent (absent = None at that level;
-   every family default of the leaf other than the chosen (last) family is cleared as well):
-   resolved value = first non-None of (show keyword, object's own value, family default, base default) *)
-Definition prec_holds (cls : string) (p : path) (vk vo vf vb : val) (src : sources) (nested : bool) (n : notation)
+(* the families of the class that have the leaf, most generic first (GenStyle.family_spec: subclass order,
+   NOT the order in which get_families happens to list them) *)
+Definition spec_families (cls : string) (p : path) : list string :=
+  filter (fun f => match fam_schema f with Some fs => has_leaf fs p | None => false end)
+         (match alookup cls family_spec with Some l => l | None => [] end).
+
+(* the leaf of an object of class cls, each source present or absent (absent = None at that level):
+   resolved value = first non-None of
+   (show keyword, object's own value, default of its own family, default of a more generic family, base default) *)
+Definition prec_holds (cls : string) (p : path) (vk vo vf vg vb : val) (src : sources) (nested : bool) (n : notation)
   : bool :=
   let s := class_schema cls in
-  let fams := leaf_families cls p in
-  let chosen := last fams "" in
+  let fams := spec_families cls p in
+  let own := last fams "" in
+  let has_gen := (2 <=? List.length fams)%nat in
   let in_base := match fam_schema "base" with Some bs => has_leaf bs p | None => false end in
-  let d1 := fold_left (fun d f => set_default d f p (if s_fam src && String.eqb f chosen then Some vf else None))
+  let d1 := fold_left (fun d f => set_default d f p (if String.eqb f own then (if s_fam src then Some vf else None)
+                                                     else (if s_gen src then Some vg else None)))
                       fams pristine in
   let d2 := if in_base then set_default d1 "base" p (if s_base src then Some vb else None) else d1 in
   let st0 := fresh_state s in
-  let own0 := match tget p (as_dict s st0) with Some (Leaf o) => o | _ => None end in
+  let own0 := match sread s st0 p with Some (Leaf o) => o | _ => None end in
   let '(st1, e1) := if s_obj src then set_leaf s st0 p (Some vo) n else (st0, None) in
   let kw := if s_kw src then show_kw p vk nested else [] in
   let '(res, e2) := get_style colors s (class_families cls) dstyle_schema (def_style_state d2) valid_keys st1
                               (show_style_kwargs kw) in
   let expected := first_some [if s_kw src then Some vk else None;
                               if s_obj src then Some vo else own0;
-                              if s_fam src && negb (String.eqb chosen "") then Some vf else None;
+                              if s_fam src && negb (String.eqb own "") then Some vf else None;
+                              if s_gen src && has_gen then Some vg else None;
                               if s_base src && in_base then Some vb else None] in
   no_err e1 && no_err e2 && leaf_is s res p expected.
 
@@ -224,7 +255,6 @@ Definition two (k : vkind) : list val := firstn 2 (sample_vals k).
 Definition lw_all : bool :=
   forallb (fun cs =>
     forallb (fun l =>
-      shadowed (snd cs) (fst (fst l)) ||
       forallb (fun v1 => forallb (fun v2 => forallb (fun n1 => forallb (fun n2 =>
         lw_holds (snd cs) (fst (fst l)) v1 v2 n1 n2)
         (notations (fst (fst l)))) (notations (fst (fst l)))) (two (snd (fst l)))) (two (snd (fst l))))
@@ -242,33 +272,31 @@ Definition reject_all : bool :=
 Definition literal_all : bool :=
   forallb (fun l => literal_holds (fst (fst l)) (snd (fst l))) (sleaves defaults_schema).
 
+(* EVERY leaf of the settings schema (in the DEFAULTS literal or not, written by an alias or not) *)
 Definition reset_all : bool :=
   forallb (fun l =>
-    negb (in_literal (fst (fst l))) || shadowed defaults_schema (fst (fst l)) ||
     forallb (fun v => forallb (fun n => reset_holds (fst (fst l)) v n) (notations_coarse (fst (fst l))))
             (two (snd (fst l))))
-    (sleaves defaults_schema).
-
-(* outside the DEFAULTS literal reset() restores NOTHING: every such leaf keeps a value (other than the one
-   it had) assigned to it *)
-Definition reset_none_outside : bool :=
-  forallb (fun l =>
-    in_literal (fst (fst l)) ||
-    forallb (fun v => leaf_is defaults_schema pristine (fst (fst l)) (Some v) ||
-                      negb (reset_holds (fst (fst l)) v NAttr)) (two (snd (fst l))))
     (sleaves defaults_schema).
 
 Definition sv (k : vkind) (i : nat) : val := nth (i mod List.length (sample_vals k)) (sample_vals k) (VInt 0).
 
 Definition prec_variants : list (bool * notation) := [(false, NAttr); (true, NUnder 0)].
 
+Definition prec_leaf_holds (cls : string) (l : path * vkind * bool) (src : sources) (nv : bool * notation) : bool :=
+  prec_holds cls (fst (fst l)) (sv (snd (fst l)) 0) (sv (snd (fst l)) 1) (sv (snd (fst l)) 2)
+             (sv (snd (fst l)) 3) (sv (snd (fst l)) 4) src (fst nv) (snd nv).
+
+(* every public class, every clearable non-alias leaf that show() accepts (alias-written leaves included):
+   16 source combinations x 2 notations; where the leaf has a default in two families of the class
+   (triangle / triangularmesh next to magnet) also the 16 combinations with the generic family set *)
 Definition prec_all : bool :=
   forallb (fun cls =>
     forallb (fun l =>
-      negb (prec_leaf (snd (fst l)) (fst (fst l))) || snd l || shadowed (class_schema cls) (fst (fst l)) ||
-      forallb (fun src => forallb (fun nv =>
-        prec_holds cls (fst (fst l)) (sv (snd (fst l)) 0) (sv (snd (fst l)) 1) (sv (snd (fst l)) 2)
-                   (sv (snd (fst l)) 3) src (fst nv) (snd nv)) prec_variants) all_sources)
+      negb (prec_leaf (snd (fst l)) (fst (fst l))) || snd l ||
+      (forallb (fun src => forallb (prec_leaf_holds cls l src) prec_variants) all_sources &&
+       ((List.length (spec_families cls (fst (fst l))) <? 2)%nat ||
+        forallb (fun src => prec_leaf_holds cls l src (false, NAttr)) gen_sources)))
       (sleaves (class_schema cls))) public_classes.
 
 Fixpoint all_names (s : schema) : list string :=
@@ -290,3 +318,53 @@ Fixpoint index_of (p : path) (l : list (path * vkind * bool)) : nat :=
   | x :: r => if path_eqb p (fst (fst x)) then 0 else S (index_of p r)
   end.
 Definition leaf_index (s : schema) (p : path) : nat := index_of p (sleaves s).
+
+(* ---------------------------------------------------------------- records of the variants before the fixes *)
+(* the schema as it was before 4641759: every alias property listed by as_dict() *)
+Fixpoint unhide (s : schema) : schema :=
+  match s with
+  | SAlias t k _ => SAlias t k true
+  | SObj c a b ct props =>
+      SObj c a b ct ((fix go (ps : list (string * schema)) : list (string * schema) :=
+                        match ps with [] => [] | (n, sp) :: r => (n, unhide sp) :: go r end) props)
+  | SLeaf k => SLeaf k
+  end.
+
+(* ---------------------------------------------------------------- who keeps a reference to the caller's dicts *)
+(* BaseGeo._process_style_kwargs: the caller's style dict after Class(style=style, style_x=..) *)
+Definition ctor_caller_dict_after (copies : bool) (style kwargs : dict) : dict :=
+  if copies then style else match kwargs with [] => style | _ => process_style_kwargs style kwargs end.
+
+(* the state of the world after a list of operations *)
+Fixpoint run_world (cls : string) (w : world) (ops : list op) : world :=
+  match ops with
+  | [] => w
+  | o :: r => run_world cls (fst (step cls w o)) r
+  end.
+
+(* magic_to_dict, first level: the caller's argument after the call.  `owned` = the keys of the result whose
+   value IS (same object) the caller's nested dict; the in-place form (`new_kwargs[k0].update(val)`, before
+   c3df3ef) writes the underscore keyword into that dict, the fresh form builds a new one *)
+Definition sremove (k : string) (l : list string) : list string := filter (fun x => negb (String.eqb x k)) l.
+
+Fixpoint magic_arg_after (fresh : bool) (items : dict) (owned : list string) (arg : dict) : dict :=
+  match items with
+  | [] => arg
+  | (k, v) :: r =>
+      match split_on us k with
+      | [] => magic_arg_after fresh r owned arg
+      | [k0] => magic_arg_after fresh r
+                  (match v with Node _ => k0 :: sremove k0 owned | Leaf _ => sremove k0 owned end) arg
+      | k0 :: rest =>
+          if smem k0 owned then
+            if fresh then magic_arg_after fresh r (sremove k0 owned) arg
+            else magic_arg_after fresh r owned
+                   (match dget k0 arg with
+                    | Some (Node d) => dset k0 (Node (dset (join_with "_" rest) v d)) arg
+                    | _ => arg
+                    end)
+          else magic_arg_after fresh r owned arg
+      end
+  end.
+
+Definition magic_caller_arg_after (fresh : bool) (arg : dict) : dict := magic_arg_after fresh arg [] arg.
